@@ -64,6 +64,15 @@ func (vfs *OrefaFS) createNode(parent *node, absPath, fileName string, mode fs.F
 		nlink: 1,
 	}
 
+	if parent.mode&fs.ModeSetgid != 0 {
+		// A node created in a set-group-ID directory inherits its group, a directory also inherits the bit.
+		nd.gid = parent.gid
+
+		if mode.IsDir() {
+			nd.mode |= fs.ModeSetgid
+		}
+	}
+
 	parent.addChild(fileName, nd)
 
 	vfs.nodes[absPath] = nd
